@@ -224,7 +224,14 @@ func (x *Exec) havocCall(st *State, fr *Frame, key string, sig *types.Signature,
 	}
 	var res []Value
 	for i := 0; i < sig.Results().Len(); i++ {
-		res = append(res, x.symbolic(st, sig.Results().At(i).Type(), "r."+shortName(key)))
+		v := x.symbolic(st, sig.Results().At(i).Type(), "r."+shortName(key))
+		// context.WithCancel / WithTimeout / WithDeadline / WithValue / Background / TODO never answer nil
+		if strings.HasPrefix(key, "context.With") || key == "context.Background" || key == "context.TODO" {
+			if v.S != "" && (v.K == KIface || v.K == KFunc || v.K == KRef) {
+				st.assume(mkNot(mkEq(v.S, "0")))
+			}
+		}
+		res = append(res, v)
 	}
 	return single(st, res...)
 }
@@ -560,6 +567,7 @@ func (x *Exec) applyAssign(st *State, env *SpecEnv, a AssignSpec) {
 				v = *v.Dyn
 			}
 			x.havocReachable(st, v)
+			x.assumeDecoded(st, v)
 		case "ghost":
 			old, ok := st.ghost[a.Heap]
 			if !ok {
@@ -1095,4 +1103,55 @@ func (x *Exec) iterateClosure(st *State, fr *Frame, cv Value, callee string, pos
 		}
 	}
 	x.note("callback %s invoked any number of times by %s (iteration invariant of the closure)", cv.Fn.Name(), callee)
+}
+
+
+// assumeDecoded: the target of a decode is a generated protobuf message (a struct of a
+// ".../pb" package): the generated Unmarshal appends a freshly allocated element before it
+// decodes into it, so the elements of a repeated message field are never nil (ledger:
+// "protobuf decode").  Everything else about the message stays arbitrary: optional message
+// fields may be nil, byte fields have any length.
+func (x *Exec) assumeDecoded(st *State, p Value) {
+	et := pointee(p.T)
+	if et == nil {
+		return
+	}
+	n, ok := et.(*types.Named)
+	if !ok || n.Obj().Pkg() == nil || !strings.HasSuffix(n.Obj().Pkg().Path(), "/pb") {
+		return
+	}
+	stt, ok := et.Underlying().(*types.Struct)
+	if !ok {
+		return
+	}
+	if p.K == KRef {
+		st.assume(mkNot(mkEq(p.S, "0")))
+	}
+	defer func() { recover() }() // a target that cannot be loaded is left arbitrary
+	x.specEval++
+	obj := x.load(st, p, token.NoPos)
+	x.specEval--
+	if obj.K != KStruct || len(obj.Fields) != stt.NumFields() {
+		return
+	}
+	for i := 0; i < stt.NumFields(); i++ {
+		sl, ok := stt.Field(i).Type().Underlying().(*types.Slice)
+		if !ok {
+			continue
+		}
+		if _, isPtr := sl.Elem().Underlying().(*types.Pointer); !isPtr {
+			continue
+		}
+		f := obj.Fields[i]
+		if f.K != KSlice {
+			continue
+		}
+		x.d.n++
+		k := fmt.Sprintf("dk!q%d", x.d.n)
+		x.underBinder++
+		el := x.loadElem(st, f.Rid, mkAdd(f.Off, k), sl.Elem())
+		x.underBinder--
+		body := mkImp(mkAnd(mkCmp("<=", "0", k), mkCmp("<", k, f.Len)), mkNot(mkEq(el.S, "0")))
+		st.assume("(forall ((" + k + " Int)) (! " + body + " :pattern (" + el.S + ")))")
+	}
 }
